@@ -109,10 +109,11 @@ def coq_deps(vfile: str):
             continue
         seen.append(f)
         src = strip_comments(open(os.path.join(COQ, f)).read())
-        for m in re.finditer(r"Require\s+(?:Import|Export)?\s*([^.]*(?:\.[A-Za-z_][\w]*)*)\.\s", src):
-            for mod in m.group(1).split():
-                if mod.startswith("Strum."):
-                    todo.append(mod[len("Strum."):].replace(".", "/") + ".v")
+        for line in src.split("\n"):
+            if "Require" not in line and not line.lstrip().startswith("Strum."):
+                continue
+            for m in re.finditer(r"\bStrum((?:\.[A-Za-z_]\w*)+)", line):
+                todo.append(m.group(1)[1:].replace(".", "/") + ".v")
     return seen
 
 
